@@ -335,12 +335,24 @@ public:
   // sendRawBytes sees a null transport / zero session and no-ops — there is no
   // torn send. So the state-check-then-act here is not a TOCTOU bug.
 
+  //
+  // DATA-AFTER-CLOSE (RFC 6455 5.5.1): once this client has put a CLOSE frame on
+  // the wire (sendClose(), the echo of the peer's CLOSE, a 1007 failure) it must
+  // send no further data frame. _closeSent is checked and the frame is enqueued
+  // under _sendMutex, and sendClose() flips _closeSent and enqueues the CLOSE
+  // under the same mutex, so the check-then-send is atomic w.r.t. a concurrent
+  // close (same contract as WebSocketServer::sendText). _sendMutex is taken
+  // before the leaf _transportMutex (inside sendRawBytes) and never the other
+  // way round; sendAsync's completion callback is a no-op, so nothing re-enters.
+
   void sendText(const std::string& text)
   {
     if (_state.load() != WebSocketState::CONNECTED) return;
     auto frame = WebSocketFrame::makeText(text);
     generateMaskKey(frame.maskKey);
     auto wire = frame.serialize(true); // client MUST mask
+    std::lock_guard<std::mutex> lock(_sendMutex);
+    if (_closeSent) return; // drop: CLOSE already sent
     sendRawBytes(wire.data(), wire.size());
   }
 
@@ -350,6 +362,8 @@ public:
     auto frame = WebSocketFrame::makeBinary(data);
     generateMaskKey(frame.maskKey);
     auto wire = frame.serialize(true);
+    std::lock_guard<std::mutex> lock(_sendMutex);
+    if (_closeSent) return; // drop: CLOSE already sent
     sendRawBytes(wire.data(), wire.size());
   }
 
@@ -359,6 +373,8 @@ public:
     auto frame = WebSocketFrame::makePing(payload);
     generateMaskKey(frame.maskKey);
     auto wire = frame.serialize(true);
+    std::lock_guard<std::mutex> lock(_sendMutex);
+    if (_closeSent) return; // drop: CLOSE already sent
     sendRawBytes(wire.data(), wire.size());
   }
 
@@ -371,6 +387,8 @@ public:
     auto frame = WebSocketFrame::makeClose(code, reason);
     generateMaskKey(frame.maskKey);
     auto wire = frame.serialize(true);
+    std::lock_guard<std::mutex> lock(_sendMutex);
+    _closeSent = true; // from here on sendText/sendBinary/sendPing drop
     sendRawBytes(wire.data(), wire.size());
   }
 
@@ -525,6 +543,10 @@ private:
   bool doConnect(const std::shared_ptr<ReconnectControl>& rc)
   {
     setState(WebSocketState::CONNECTING);
+    {
+      std::lock_guard<std::mutex> lock(_sendMutex);
+      _closeSent = false; // new connection: sends are allowed again
+    }
 
     TransportConfig config;
     config.protocol = Protocol::TCP;
@@ -903,6 +925,18 @@ private:
     {
       if (opcode == WsOpcode::TEXT)
       {
+        // RFC 6455 8.1: a text message that is not valid UTF-8 fails the
+        // connection with 1007 and is never delivered as text (same check as
+        // WebSocketServer::handleDataFrame).
+        WebSocketFrame temp;
+        temp.payload = payload;
+        if (!temp.isValidUtf8())
+        {
+          sendClose(1007, "Invalid UTF-8");
+          if (_onError) _onError("Received text message with invalid UTF-8");
+          return;
+        }
+
         if (_onTextMessage)
         {
           std::string text(payload.begin(), payload.end());
@@ -1213,6 +1247,12 @@ private:
   // Fragment reassembly (protected by _dataMutex)
   std::vector<std::uint8_t> _fragmentBuffer;
   WsOpcode _fragmentOpcode = WsOpcode::CONTINUATION;
+
+  // Send-side close gate: _closeSent is read/written only under _sendMutex, which
+  // is held across the enqueue of every frame this client originates (see the
+  // DATA-AFTER-CLOSE note above sendText). Order: _sendMutex -> _transportMutex.
+  std::mutex _sendMutex;
+  bool _closeSent = false;
 
   // Connect-handshake synchronization. NOT one of the leaf group locks; released
   // before any stop()/teardown (never held across them).
